@@ -87,6 +87,18 @@ Theorem C11_wrapper_io_clean_status :
 Proof. exact wrapper_io_clean_proof. Qed.
 Print Assumptions C11_wrapper_io_clean_status.
 
+(* preprocess::Launch, parent side (close-on-exec status pipe), any oracle: an empty command line, a failed read
+   of the status pipe (other than EAGAIN/EINTR, which are retried) or any byte from the child (its execvp failed)
+   => the exception leaves main => SIGABRT; only "end of file on the status pipe" lets the wrapper go on *)
+Theorem C11_launch_failure_nonzero :
+  forall words fd orc after st evs,
+  launch_status words fd orc after = (st, evs) ->
+  ((words = 0%nat /\ launch_checks_command = true) \/ launch_ok evs = false -> st = Signaled SIGABRT) /\
+  (launch_ok evs = true -> st = after).
+Proof. exact launch_spec_proof. Qed.
+Print Assumptions C11_launch_failure_nonzero.
+
+
 
 (* iostream tools, for ANY segmentation of the output into write(2) calls by stdio:
    with the stream-state tests that the four mains contain today (regenerated booleans). *)
